@@ -77,7 +77,7 @@ future (`cot < expiry`, regenerated from `process_uat_to_identity`). -/
 theorem useUat_ok {sessions : List (Nat × Session)} {u : Uat} {ct : Nat} {s : AccessScope}
     (h : useUat sessions u ct = .ok s) :
     expiredAt u ct = false ∧ tokenValid sessions u ct = true ∧ s = uatAccessScope u.purpose ct := by
-  unfold useUat at h
+  unfold useUat processUat at h
   cases h1 : expiredAt u ct <;> cases h2 : tokenValid sessions u ct <;> simp [h1, h2] at h
   exact ⟨rfl, rfl, h.symm⟩
 
@@ -104,8 +104,9 @@ theorem useUat_not_expired {sessions : List (Nat × Session)} {u : Uat} {ct : Na
     (h : useUat sessions u ct = .ok s) : ∀ e, u.expiry = some e → ct ≤ e := by
   intro e he
   obtain ⟨h1, _, _⟩ := useUat_ok h
-  simp only [expiredAt, he, uatExpired] at h1
-  simpa using h1
+  -- holds for either strictness of the regenerated comparison (`exp < ct` or `exp <= ct`)
+  simp only [expiredAt, he, uatExpired, decide_eq_false_iff_not] at h1
+  omega
 
 theorem lookup_mem {sid : Nat} {l : List (Nat × Session)} {s : Session}
     (h : lookup sid l = some s) : (sid, s) ∈ l := by
